@@ -482,8 +482,8 @@ def parab_checks(ctx, rec, case):
 
 def correspond(ctx):
     drv = ctx.driver()
-    n = ctx.size(45, 260)
-    max_len = ctx.size(10, 72)
+    n = ctx.size(90, 400)
+    max_len = ctx.size(12, 72)
     cases = gen_cases(ctx, n, max_len)
     cases += gen_zero_cases(ctx, ctx.size(6, 40))
     todo, lines = [], []
@@ -708,8 +708,8 @@ def _run_oracle(ctx, cases, label):
 
 
 def oracle(ctx):
-    n = ctx.size(70, 420)
-    max_len = ctx.size(12, 72)
+    n = ctx.size(150, 600)
+    max_len = ctx.size(14, 72)
     cases = gen_cases(ctx, n, max_len)
     wr, wc = _run_oracle(ctx, cases, "oracle")
     ctx.note("oracle: worst |elevation - horizon| at a reported rise/fall = %.2e deg; worst (true maximum - elevation at the "
